@@ -151,7 +151,9 @@ impl Framer {
             // build the burst
             State::DataRead(ref mut msg, ref mut invalid_byte_count) => {
                 *invalid_byte_count += !combiner::is_allowed_byte(data) as u32;
-                if *invalid_byte_count > self.max_invalid_bytes {
+                if *invalid_byte_count > self.max_invalid_bytes
+                    || msg.len() >= Self::MAX_BURST_LENGTH
+                {
                     // we're done!
                     self.end()
                 } else {
@@ -199,6 +201,10 @@ impl Framer {
     // once started, search a total of 21 bytes for
     // a valid data start prefix (16 bytes preamble + 4 bytes prefix + 1 byte margin)
     const PREFIX_SEARCH_LEN: u32 = 21;
+
+    // maximum data burst length: the maximum SAME frame length,
+    // less the 16-byte preamble
+    const MAX_BURST_LENGTH: usize = assembler::MAX_MESSAGE_LENGTH - 16;
 }
 
 // Framer state
